@@ -573,6 +573,19 @@ func (e dbgEntry) Logf(f string, a ...any) {}
 type dest struct {
 	host, key, dataset string
 	bad                bool
+	cls                string // ok | bad (URL cannot be built) | dot (path is not /1/batch/<escaped dataset>)
+}
+
+// destClass asks the real buildRequestURL what becomes of this destination.
+func destClass(host, dataset string) string {
+	u, err := transmit.VerifTransmitBuildURL(host, dataset)
+	if err != nil {
+		return "bad"
+	}
+	if p, err := url.Parse(u); err != nil || p.EscapedPath() != "/1/batch/"+url.PathEscape(dataset) {
+		return "dot"
+	}
+	return "ok"
 }
 
 type runner struct {
@@ -994,12 +1007,16 @@ func (comp) Gen(r *kit.Rng, maxLen int, tier string) kit.Case {
 	mb := []int{1, 2, 3, 5, 8, 16}[r.Intn(6)]
 	if big {
 		mb = 2 + r.Intn(9)
+		if r.Chance(60) {
+			mb = 6 + r.Intn(7)
+		}
 	}
 	btms := []int{1, 4, 10, 100, 400, 1000, 30000}[r.Intn(7)]
 	bt := time.Duration(btms) * time.Millisecond
 	period := bt / 4
 	nd := 1 + r.Intn(4)
 	var dests []dest
+	haveDot := false
 	for len(dests) < nd {
 		d := dest{host: hostPool[r.Intn(len(hostPool))], key: keyPool[r.Intn(len(keyPool))], dataset: dsPool[r.Intn(len(dsPool))]}
 		if len(dests) > 0 && r.Chance(60) { // share components with an earlier destination
@@ -1016,6 +1033,9 @@ func (comp) Gen(r *kit.Rng, maxLen int, tier string) kit.Case {
 		if r.Chance(8) {
 			d.host = badHosts[r.Intn(len(badHosts))]
 		}
+		if !haveDot && r.Chance(5) { // a dataset name url.JoinPath cleans away (at most one per case)
+			d.dataset = []string{"..", ".", ""}[r.Intn(3)]
+		}
 		dup := false
 		for _, o := range dests {
 			if o.host == d.host && o.key == d.key && o.dataset == d.dataset {
@@ -1025,8 +1045,14 @@ func (comp) Gen(r *kit.Rng, maxLen int, tier string) kit.Case {
 		if dup {
 			continue
 		}
-		_, err := transmit.VerifTransmitBuildURL(d.host, d.dataset)
-		d.bad = err != nil
+		d.cls = destClass(d.host, d.dataset)
+		d.bad = d.cls == "bad"
+		if d.cls == "dot" {
+			if haveDot {
+				continue
+			}
+			haveDot = true
+		}
 		dests = append(dests, d)
 	}
 	// BatchSendTimeout runs on the real clock: generous unless the case contains real hangs
@@ -1036,11 +1062,7 @@ func (comp) Gen(r *kit.Rng, maxLen int, tier string) kit.Case {
 	}
 	hdr := fmt.Sprintf("mb=%d bt=%d z=%d ah=%d sto=%d nd=%d", mb, btms, r.Intn(2), r.Pick(70, 30), sto, nd)
 	for i, d := range dests {
-		cls := "ok"
-		if d.bad {
-			cls = "bad"
-		}
-		hdr += fmt.Sprintf(" d%d=%s|%s|%s|%s", i, kit.Enc(d.host), kit.Enc(d.key), kit.Enc(d.dataset), cls)
+		hdr += fmt.Sprintf(" d%d=%s|%s|%s|%s", i, kit.Enc(d.host), kit.Enc(d.key), kit.Enc(d.dataset), d.cls)
 	}
 	// generator-side bookkeeping (only used to aim at boundaries)
 	now := time.Duration(0)
@@ -1064,12 +1086,15 @@ func (comp) Gen(r *kit.Rng, maxLen int, tier string) kit.Case {
 			}
 			var target string
 			sz := 0
-			cls := r.Pick(50, 12, 12, 8, 4, 14)
+			cls := r.Pick(38, 10, 10, 8, 4, 30)
 			if !big && cls != 4 {
 				cls = 0
 				if r.Chance(10) {
 					cls = 1
 				}
+			}
+			if cls == 5 && r.Chance(80) {
+				di = 0
 			}
 			switch cls {
 			case 0:
@@ -1080,11 +1105,15 @@ func (comp) Gen(r *kit.Rng, maxLen int, tier string) kit.Case {
 				sz = 1_000_000 - r.Intn(3)*r.Intn(20)
 			case 3:
 				sz = 1_000_001 + r.Intn(2)*r.Intn(200_000)
-			case 5: // aim at the 5 MB boundary of the current sub-batch
+			case 5: // fill the current sub-batch up to the 5 MB boundary, then aim at it
 				room := 5_000_000 - 5 - sum[di]
-				sz = room + []int{0, 0, 1, -1}[r.Intn(4)]
-				if sz > 1_000_000 || sz < 60 {
-					sz = 999_000 + r.Intn(1001)
+				if room > 1_000_000 {
+					sz = 1_000_000 - r.Intn(2)*r.Intn(50_000)
+				} else {
+					sz = room + []int{0, 0, 1, 5, 6, -1}[r.Intn(6)]
+					if sz > 1_000_000 || sz < 60 {
+						sz = 999_000 + r.Intn(1001)
+					}
 				}
 			}
 			if cls == 4 {
